@@ -635,6 +635,16 @@ def install_sqlite(inst: Installed | None = None) -> Installed:
             except sqlite3.OperationalError as e:
                 if not _locked(e):
                     raise
+                # injected fault: SQLite's busy time-out expires for this actor at its k-th locked statement, so the
+                # "database is locked" error reaches the code under test instead of the actor waiting for the lock
+                faults = getattr(s, "busy_faults", None)
+                if faults:
+                    seen = s.__dict__.setdefault("busy_seen", {})
+                    k = seen.get(a.name, 0)
+                    seen[a.name] = k + 1
+                    if (a.name, k) in faults:
+                        s.__dict__.setdefault("busy_fired", []).append((a.name, k, " ".join(sql.split())[:40]))
+                        raise
                 epoch = s.db_epoch
                 s.block_until(lambda: s.db_epoch != epoch, ("db-locked", " ".join(sql.split())[:40]))
 
